@@ -7,6 +7,7 @@ import (
 	"strings"
 
 	"verif/core"
+	"verif/runner"
 	"verif/theory"
 )
 
@@ -78,7 +79,15 @@ func convCLIOut(c *core.Ctx, stream string, idx int, k theory.Key, chain string,
 			args = append(args, "--output=/dev/null")
 		}
 	}
-	r := runCPU(c, cpu, nil, args...)
+	// the conversion has two inputs, --key and -c: whatever waits on the standard input and whatever the environment
+	// holds is none of its business (every fifth case gets another chain on stdin and CRD_* variables)
+	var r *runner.Result
+	if idx%5 == 2 {
+		r = c.Crd.Run(runner.Opt{Stdin: []byte([]string{"s", "pd\n", "rrr", "x", "d d d\n"}[idx/5%5]), CPUSec: cpu,
+			Env: []string{"CRD_KEY=" + []string{"Eb", "F#m", "H", "C"}[idx/5%4], "CRD_COMMAND=s", "CRD_C=p", "KEY=Gb", "CRD_OUTPUT=/dev/null", "CRD_DEBUG=1"}}, args...)
+	} else {
+		r = runCPU(c, cpu, nil, args...)
+	}
 	c.Eval(1)
 	if infra(c, r) {
 		return
